@@ -135,5 +135,5 @@ def plan(exp, tier):
             p.bounded.append('%s: %s' % (sp['harness'], sp['bounded']))
     p.assumptions += ['Aabr/Aabb::is_valid (partial_cmple through the AsRef trait, which vstd does not specify) is assumed in Verus '
                       '(res == all min <= max); its real body is proved by Kani for i8 elements (c13_is_valid_*)']
-    p.not_decided += ['map / as_ on boxes and rectangles (casts: C20)', 'Rect split_at_* (array of converted halves) and the in-place Rect forms']
+    p.not_decided += ['map / as_ on boxes and rectangles (casts: C20)']
     return p
